@@ -19,9 +19,43 @@ def recase(s, how):
     return {"upper": s.upper(), "lower": s.lower(), "capital": s.capitalize(), "mixed": "".join(c.lower() if i % 2 else c.upper() for i, c in enumerate(s))}[how]
 
 
+def run_history_case(case):
+    """one manager: a run that cannot meet the limits (no continue) fails with ValueError, then the lot is enlarged through the geometry
+    setter and the design is run again WITHOUT calling set_simulation_parameters again: the cap given once still holds"""
+    from vf import scenarios
+
+    res = core.Result(evals=0)
+    method, cap = case["method"], case["cap"]
+    m = physics.manager(method, load=case["load"], months=12, cap=cap, cont=False, geo=case["geo_small"])
+    e1 = physics.find(m)
+    res["evals"] += 1
+    scenarios.set_geometry(m, method, case["geo_large"])
+    m.set_design(flow_rate=0.3, flow_type_str="borehole")
+    e2 = physics.find(m)
+    res["evals"] += 1
+    first = "ValueError" if isinstance(e1, ValueError) else "design" if e1 is None else f"exc:{type(e1).__name__}"
+    if e2 is None:
+        nbh = len(m._search.ghe.gFunction.bore_locations)
+        if nbh > cap:
+            res["violations"].append(core.viol("cap_exceeded", case, observed=nbh, expected=cap, msg=f"{method}: second run on a manager whose first run ended with {first}: {nbh} boreholes returned with max_boreholes={cap} "
+                                               f"(set once, before the first run)", method=method, via="history"))
+        res.outcome("design")
+    elif isinstance(e2, ValueError):
+        res.outcome("ValueError")
+    else:
+        res["violations"].append(core.viol("wrong_exception_type", case, msg=f"{method}: second run raised {type(e2).__name__}: {e2}", exc=type(e2).__name__, method=method, via="history"))
+    res.outcome("manager_histories_" + first)
+    res["nontrivial"] += 1
+    res["sample"] = dict(case)
+    res["states"], res["transitions"] = [], []
+    return res
+
+
 def run_file_case(case):
     import ghedesigner.manager as mg
 
+    if case.get("kind") == "history":
+        return run_history_case(case)
     res = core.Result(evals=0)
     method, cap, cont = case["method"], case["cap"], case["cont"]
     m = physics.manager(method, pipe=case.get("pipe", "single"), load=case["load"], months=24, cap=cap, cont=cont)
